@@ -333,7 +333,27 @@ pub fn extra_universe() -> Universe {
     // a type whose Drop reads the data it borrows (see render.rs: definitions named DropAudit get a Drop impl)
     let audit = add(def("DropAudit", DeepPlain, &[], vec![tparam("A", &["AsRef<[u64]>"])], Body::Struct(named(&[("a", Ty::Param(0)), ("n", p(U32))]))));
 
+    // definitions emitted through `macro_rules!` with `$f:ty` fragments (see render.rs: names starting with `Mac`)
+    let mac_s = add(def("MacS", DeepPlain, &[], vec![tparam("A", &[]), tparam("B", &[])], Body::Struct(named(&[("a", Ty::Param(0)), ("n", p(U32)), ("b", Ty::vec(Ty::adt(za, vec![]))), ("c", Ty::Param(1))]))));
+    let mac_t = add(def("MacT", DeepAttr, &[], vec![tparam("A", &[])], Body::Struct(Fields::Tuple(vec![Ty::Param(0), Ty::String, Ty::opt(Ty::vec(p(U16)))]))));
+    let mac_e = add(def(
+        "MacE",
+        DeepPlain,
+        &[],
+        vec![tparam("A", &[]), tparam("B", &[])],
+        Body::Enum(vec![("One".into(), Fields::Tuple(vec![Ty::Param(0), p(U16)])), ("Two".into(), named(&[("x", Ty::Param(1)), ("y", Ty::Param(0))])), ("Nil".into(), Fields::Unit)]),
+    ));
+    let mac_z = add(def("MacZ", Zero, &["C"], vec![tparam("A", &[ZC])], Body::Struct(named(&[("x", Ty::Param(0)), ("y", p(U16))]))));
+
     let mut s: Vec<Ty> = vec![];
+    for (x, y) in [(Ty::vec(p(U64)), p(U8)), (Ty::String, p(U32)), (Ty::bslice(Ty::adt(za, vec![])), Ty::adt(za, vec![])), (Ty::vec(Ty::String), Ty::tup(p(U16), 2))] {
+        s.push(Ty::adt(mac_s, vec![a(x.clone()), a(y.clone())]));
+        s.push(Ty::adt(mac_t, vec![a(x.clone())]));
+        s.push(Ty::adt(mac_e, vec![a(x.clone()), a(y.clone())]));
+        s.push(Ty::adt(mac_e, vec![a(y.clone()), a(x.clone())]));
+        s.push(Ty::vec(Ty::adt(mac_z, vec![a(y.clone())])));
+        s.push(Ty::adt(mac_s, vec![a(Ty::adt(mac_t, vec![a(x)])), a(Ty::adt(mac_z, vec![a(y)]))]));
+    }
     let blocks = [
         Ty::vec(Ty::adt(z64, vec![])),
         Ty::adt(z32, vec![]),
@@ -352,6 +372,20 @@ pub fn extra_universe() -> Universe {
         s.push(Ty::adt(pre, vec![a(Ty::String), a(b.clone())]));
     }
     s.push(Ty::adt(pre, vec![a(Ty::vec(p(U8))), a(Ty::vec(p(U64)))]));
+    // blocks whose alignment unit (the size of the range) is larger than their `align_of`
+    let wide = [
+        Ty::vec(Ty::range(RangeKind::RangeTo, Ty::tup(p(U32), 2))),
+        Ty::bslice(Ty::range(RangeKind::RangeToInclusive, Ty::tup(p(U16), 2))),
+        Ty::vec(Ty::range(RangeKind::RangeTo, Ty::arr(p(U16), 2))),
+        Ty::vec(Ty::range(RangeKind::RangeTo, Ty::tup(p(U8), 2))),
+        Ty::bslice(Ty::range(RangeKind::RangeToInclusive, Ty::arr(p(U32), 4))),
+    ];
+    for b in &wide {
+        s.push(Ty::adt(pre, vec![a(Ty::String), a(b.clone())]));
+        s.push(Ty::adt(tail, vec![a(b.clone())]));
+        s.push(b.clone());
+    }
+    s.push(Ty::adt(pre_full, vec![a(Ty::range(RangeKind::RangeTo, Ty::tup(p(U32), 2)))]));
     s.push(Ty::adt(pre, vec![a(Ty::vec(p(U16))), a(Ty::vec(p(U64)))]));
     s.push(Ty::adt(pre, vec![a(Ty::vec(p(U64))), a(Ty::vec(p(U16)))]));
     s.push(Ty::adt(pre, vec![a(Ty::String), a(Ty::adt(pre, vec![a(Ty::vec(p(U16))), a(Ty::vec(p(U64)))]))]));
